@@ -403,6 +403,43 @@ pub fn run(args: &Args) {
                 distinct = by hash of the model input".into();
     let mut rng = Rng::new(args.seed);
     corpus(&mut out);
+    distribution_asset_change_probe(&mut out);
     for _ in 0..args.n { gen_history(&mut out, &mut rng); }
     out.finish();
+}
+
+/// The distributor's owner changes the distribution asset between two epochs. The collector must follow the distributor's current
+/// configuration: the new epoch consists of the collector's balance of the NEW distribution asset, that amount reaches the distributor,
+/// and the old distribution asset - now an ordinary asset without a route to the new one - stays in the collector untouched.
+/// (Monitor only: the pipeline model has a fixed distribution asset.)
+fn distribution_asset_change_probe(out: &mut Out) {
+    let setup = Setup { grace: 2, pair_fees: [50_000_000_000_000_000; 3], liquidity: [(1_000_000_000, 1_000_000_000), (1_000_000_000, 2_000_000_000), (1_000_000, 1_000_000)],
+                        vault_fees: [10_000_000_000_000_000; 3], routes: [0, 1, 0], cw20_btc: false, many_vaults: false };
+    let mut w = build(&setup);
+    let t0 = GENESIS_DEFAULT;
+    let replay = json!({"kind": "distribution_asset_change", "setup": format!("{:?}", setup),
+        "script": "fees 1_000_000 uwhale; NewEpoch; distributor UpdateConfig{distribution_asset: uusdc}; fees 300_000 uwhale + 500_000 uusdc + 40_000 uatom; one day later NewEpoch"});
+    let coll = w.w.collector.to_string();
+    let dist = w.w.distributor.to_string();
+    let ok = |r: Outcome<()>| matches!(r, Outcome::Ok(_));
+    if !ok(apply(&mut w, t0, &Ev::Fee { asset: 0, amount: 1_000_000 })) || !ok(apply(&mut w, t0, &Ev::NewEpoch { who: 1 })) { out.count("dist_asset_probe:setup_failed"); return; }
+    let owner = Addr::unchecked(OWNER);
+    let d = w.w.distributor.clone();
+    let r = w.w.app.execute_contract(owner, d, &white_whale_std::fee_distributor::ExecuteMsg::UpdateConfig { owner: None, bonding_contract_addr: None, fee_collector_addr: None,
+        grace_period: None, distribution_asset: Some(native("uusdc")), epoch_config: None }, &[]);
+    if r.is_err() { out.count("dist_asset_probe:update_rejected"); return; }
+    for (a, x) in [(0usize, 300_000u128), (1, 500_000), (2, 40_000)] { if !ok(apply(&mut w, t0 + 5, &Ev::Fee { asset: a, amount: x })) { return; } }
+    let before = (w.w.bal(&coll, "uwhale"), w.w.bal(&coll, "uusdc"), w.w.bal(&coll, "uatom"), w.w.bal(&dist, "uwhale"), w.w.bal(&dist, "uusdc"));
+    let r2 = ok(apply(&mut w, t0 + DAY_NS + 10, &Ev::NewEpoch { who: 2 }));
+    out.monitor_evals += 1;
+    out.count(if r2 { "dist_asset_probe:second_epoch_created" } else { "dist_asset_probe:second_epoch_rejected" });
+    if !r2 { out.monitor_fail("C10", "no epoch can be created after the distributor's distribution asset was changed", replay); return; }
+    let after = (w.w.bal(&coll, "uwhale"), w.w.bal(&coll, "uusdc"), w.w.bal(&coll, "uatom"), w.w.bal(&dist, "uwhale"), w.w.bal(&dist, "uusdc"));
+    let e = w.w.q_current_epoch();
+    let total_new = asset_amount(&e.total, "uusdc");
+    if e.total.len() != 1 || total_new == 0 { out.monitor_fail("C10", "the new epoch does not consist of the new distribution asset", replay.clone()); }
+    if after.4 - before.4 != total_new { out.monitor_fail("C10", &format!("the distributor received {} of the new distribution asset but the new epoch's total is {}", after.4 - before.4, total_new), replay.clone()); }
+    if after.1 != 0 { out.monitor_fail("C10", "the collector kept some of the (new) distribution asset", replay.clone()); }
+    if after.0 != before.0 || after.3 != before.3 { out.monitor_fail("C10", "the old distribution asset (no route to the new one) moved although it is an ordinary asset now", replay.clone()); }
+    if after.2 != before.2 { out.monitor_fail("C10", "an asset whose route leads to the OLD distribution asset left the collector", replay.clone()); }
 }
